@@ -125,6 +125,46 @@ func init() {
 			e.facts = append(e.facts, fact{Module: "C16Facts", Kind: "guard", Name: g.name, Value: map[string]interface{}{"found": found, "want": g.want, "have": have}, Pos: g.file + ":" + g.fn})
 		}
 		sb.WriteString("]\n")
+		// lock discipline of the vote containers the reactor's gossip goroutines read while the state machine writes them: every
+		// exported method (that is not a getter of an immutable field) takes the receiver's mutex before anything else
+		// (an unlocked map read concurrent with a write is a fatal runtime error no recover can catch)
+		sb.WriteString("\n/-- (type.method, first statements lock the receiver's mutex) for every exported method -/\n")
+		sb.WriteString("def lockFacts : List (String × Bool) := [\n")
+		var rows []string
+		for _, t := range []struct{ file, recv string }{{"types/vote_set.go", "VoteSet"}, {"consensus/types/height_vote_set.go", "HeightVoteSet"}, {"types/part_set.go", "PartSet"}} {
+			f, err := e.parse(t.file)
+			if err != nil {
+				return "", err
+			}
+			for _, d := range f.Decls {
+				fd, ok := d.(*ast.FuncDecl)
+				if !ok || fd.Recv == nil || len(fd.Recv.List) != 1 || !fd.Name.IsExported() || fd.Body == nil {
+					continue
+				}
+				rt := fd.Recv.List[0].Type
+				if st, ok := rt.(*ast.StarExpr); ok {
+					rt = st.X
+				}
+				if id, ok := rt.(*ast.Ident); !ok || id.Name != t.recv {
+					continue
+				}
+				locks := false
+				for i, st := range fd.Body.List {
+					if i > 2 {
+						break
+					}
+					if es, ok := st.(*ast.ExprStmt); ok {
+						txt := src(e, es)
+						if strings.HasSuffix(txt, ".mtx.Lock()") || strings.HasSuffix(txt, ".mtx.RLock()") {
+							locks = true
+						}
+					}
+				}
+				rows = append(rows, fmt.Sprintf("  (%s, %v)", c02Str(t.recv+"."+fd.Name.Name), locks))
+				e.facts = append(e.facts, fact{Module: "C16Facts", Kind: "lock", Name: t.recv + "." + fd.Name.Name, Value: locks, Pos: t.file})
+			}
+		}
+		sb.WriteString(strings.Join(rows, ",\n") + "\n]\n")
 		return sb.String(), nil
 	})
 }
